@@ -55,3 +55,17 @@ func verifPtr(d *delayAction) uintptr {
 	verifSeenDelayActions[d] = struct{}{}
 	return uintptr(unsafe.Pointer(d))
 }
+
+// VerifDropDelayedActions cancels and forgets the delayed actions stored for a job key, as the
+// end of the controller process does.  Timers whose entry was overwritten earlier are out of
+// reach (the controller itself cannot cancel them either).
+func (v *VerifJobController) VerifDropDelayedActions(jobKey string) {
+	v.cc.delayActionMapLock.Lock()
+	defer v.cc.delayActionMapLock.Unlock()
+	for name, d := range v.cc.delayActionMap[jobKey] {
+		if d.cancel != nil {
+			d.cancel()
+		}
+		delete(v.cc.delayActionMap[jobKey], name)
+	}
+}
